@@ -225,6 +225,30 @@ func Replay(c *core.Ctx, lines []string) {
 				ns = append(ns, n)
 			}
 			doAvg(c, metricIndex(f[1]), ns)
+		case f[0] == "C14.avgids" && len(f) >= 4:
+			var ns []*core.N
+			for _, d := range strings.Split(strings.TrimSuffix(f[2], "|"), "|") {
+				if d == "" {
+					continue
+				}
+				n, err := core.ParseDump(d)
+				if err != nil {
+					panic(err)
+				}
+				ns = append(ns, n)
+			}
+			ids := []int{}
+			for _, x := range strings.Split(strings.TrimSuffix(f[3], ","), ",") {
+				if x == "" {
+					continue
+				}
+				v, _ := strconv.Atoi(x)
+				ids = append(ids, v)
+			}
+			for len(ids) < len(ns) {
+				ids = append(ids, 0)
+			}
+			doAvgIds(c, metricIndex(f[1]), ns, ids)
 		case f[0] == "C14.hmatrix" && len(f) >= 4:
 			n, err := core.ParseDump(f[2])
 			if err != nil {
@@ -389,31 +413,74 @@ func avgCase(c *core.Ctx) {
 		doHAvg(c, metric, ns, int64(c.G.Intn(1<<30)))
 		return
 	}
-	doAvg(c, metric, ns)
+	doAvgIds(c, metric, ns, drawIds(c.G, len(ns)))
 }
 
-func doAvg(c *core.Ctx, metric int, ns []*core.N) {
+// drawIds: the Id field of the channel records.  ReadMultiTrees numbers 0..n-1, a hand-built channel
+// need not: all zero (unset), starting elsewhere, with gaps, descending, arbitrary.  The average must
+// not depend on them (theorem avg_ignores_ids).  nil = 0..n-1.
+func drawIds(g *core.G, n int) []int {
+	ids := make([]int, n)
+	switch g.Intn(7) {
+	case 0, 1:
+		return nil
+	case 2: // unset
+	case 3:
+		for i := range ids {
+			ids[i] = 5 + i
+		}
+	case 4:
+		for i := range ids {
+			ids[i] = 3 * i
+		}
+	case 5:
+		for i := range ids {
+			ids[i] = n - 1 - i
+		}
+	default:
+		for i := range ids {
+			ids[i] = g.Intn(20) - 5
+		}
+	}
+	return ids
+}
+
+func doAvg(c *core.Ctx, metric int, ns []*core.N) { doAvgIds(c, metric, ns, nil) }
+
+// doAvgIds: ids == nil means 0..n-1 and the op C14.avg; otherwise the op C14.avgids carries them
+func doAvgIds(c *core.Ctx, metric int, ns []*core.N, ids []int) {
+	op := "C14.avg"
+	pre := []string{metricName(metric), core.Dumps(ns)}
+	if ids != nil {
+		op = "C14.avgids"
+		pre = append(pre, core.IntList(ids))
+	}
+	emit := func(rest ...string) { c.Emit(op, append(append([]string{}, pre...), rest...)...) }
 	ch := make(chan tree.Trees, len(ns)+1)
 	for i, n := range ns {
 		t, err := core.Build(n)
 		if err != nil {
 			panic(err)
 		}
-		ch <- tree.Trees{Tree: t, Id: i}
+		id := i
+		if ids != nil {
+			id = ids[i]
+		}
+		ch <- tree.Trees{Tree: t, Id: id}
 	}
 	close(ch)
 	var mat [][]float64
 	var tips []*tree.Node
 	var err error
 	if p, msg := core.Safe(func() { mat, tips, err = tree.AvgDistanceMatrix(metric, ch) }); p {
-		c.Emit("C14.avg", metricName(metric), core.Dumps(ns), "panic:"+core.Escape(msg), "", "")
+		emit("panic:"+core.Escape(msg), "", "")
 		return
 	}
 	if err != nil {
-		c.Emit("C14.avg", metricName(metric), core.Dumps(ns), "err", "", "")
+		emit("err", "", "")
 		return
 	}
-	c.Emit("C14.avg", metricName(metric), core.Dumps(ns), "ok", core.StrList(names(tips)), core.RatMatrix(mat))
+	emit("ok", core.StrList(names(tips)), core.RatMatrix(mat))
 }
 
 // threshold drawn from the values present (ties), in between, or one of the special values
